@@ -432,8 +432,14 @@ class MemorizedFunc(Logger):
             backend_options=dict(compress=compress, mmap_mode=mmap_mode),
         )
         if self.store_backend is not None:
-            # Create func directory on demand.
-            self.store_backend.store_cached_func_code([self.func_id])
+            # Create func directory on demand. This is best-effort: a
+            # concurrent clearing of the cache can remove the parent
+            # directories while they are being created, and every writer
+            # creates the directories it needs anyway.
+            try:
+                self.store_backend.store_cached_func_code([self.func_id])
+            except FileNotFoundError:
+                pass
 
         self.timestamp = timestamp if timestamp is not None else time.time()
         try:
